@@ -288,6 +288,10 @@ func (m *Manager) AddBindingV6(mac net.HardwareAddr, ipv6 net.IP) error {
 
 // RemoveBinding removes a subscriber's binding
 func (m *Manager) RemoveBinding(mac net.HardwareAddr) error {
+	if len(mac) != 6 {
+		return fmt.Errorf("invalid MAC address")
+	}
+
 	macKey := macToUint64(mac)
 
 	if m.bindings != nil {
